@@ -486,6 +486,16 @@ pub fn property() -> Property {
             kind: Kind::Tape { len: 96, quick: 100_000, thorough: 4_000_000, f: owned::programs },
         },
         Check {
+            name: "programs-big",
+            about: "the programs of programs-owned in seven big element domains - Copy arrays [u64; 9 / 33 / 65 / 130 / 520] (72 B .. 4160 B), a Clone-only 520-byte newtype and a 1048-byte struct with drop glue - so that the matrix itself crosses 64 B, 128 B, 256 B, 512 B, 1 KiB, one page (Mat2 16.6 KiB, Mat3 4.7 KiB, Mat4 4.2 KiB and up) and 64 KiB (Mat4 of 4160-byte elements = 66.5 KiB); every element carries its id in the first and the last word and a function of it in between, a partially copied element reads as a foreign id",
+            kind: Kind::Tape { len: 96, quick: 5_000, thorough: 400_000, f: owned::programs_big },
+        },
+        Check {
+            name: "domain-sweep",
+            about: "exhaustive: each of the 25 operations x start size {2,3,4} x each of the 15 element domains (8 small, 7 big) x 12 variants (0, 1 or 2 generated steps before the operation x the operation's four-way first choice: which from_* constructor, which Copy-only operation, which out-of-range index regime, which resize target), both layouts side by side against the model - every operation x layout x size x domain combination is executed in every tier, independent of the seed",
+            kind: Kind::Index { total: owned::sweep_total(), quick: 1_000_000, thorough: 1_000_000, f: owned::sweep },
+        },
+        Check {
             name: "element-domains",
             about: "the element domains of programs-owned have the drop glue, sizes and alignments their table claims",
             kind: Kind::Index { total: 1, quick: 1, thorough: 1, f: owned::domain_facts },
@@ -522,6 +532,7 @@ pub fn property() -> Property {
             "an index pair (i, j) with i >= N or j >= N denotes no element: the docs do not say what happens, so a panic is NOT demanded; only that Index / IndexMut behave the same in both layouts (both panic and leave the value untouched, or both resolve to the same abstract element). usize is assumed to be 64 bits wide for the huge index candidates",
             "as_ is the per-element `as` cast and numcast the per-element scalar NumCast (oracles use the scalar operations, never the matrix ones); NaN payloads are not compared, every NaN counts as equal to every other",
             "programs-owned: element values are members of the ring Z/2^64 (u16 domain: Z/2^16) stored in types that differ in drop glue / Copy / size / alignment; + and * are the wrapping ring operations, so Zero / One are lawful and trace() is independent of summation order; distinctness of the generated elements holds up to hash collisions (2^-64 per pair; 2^-16 in the u16 domain), which can only hide a defect, never cause a false alarm, because the model is computed from the same element values; drop counting (leaks, double drops) is property C18's and is not asserted here; One for matrices, apply, apply2, with_diagonal, broadcast_diagonal, as_ and numcast need T: Copy / numeric T in vek and are run in the Copy domains only",
+            "programs-big / domain-sweep: a torn (partially copied) big element is recognised by its words not fitting together and then compares unequal to every model element; a case needs < 1 MiB of stack (state boxed, one frame per operation)",
             "not asserted: the order in which map / map2 / apply call the closure, the association order of trace() (so no trace on values that can overflow or round), Debug output (derived, shows the storage)",
         ],
         checks,
